@@ -77,7 +77,7 @@ m = {
  "engines": [
   {"name": "SEQ", "path": "lib/seqmc, lib/fp", "serves_properties": ["C01","C02","C03","C04","C06","C07","C11","C16"], "kind_free_text": "explicit-state breadth-first search whose transitions call the real API; reflective fingerprint of the concrete object graph; fixpoint under size bounds"},
   {"name": "ENUM", "path": "lib/enum", "serves_properties": ["C08","C12","C13","C14","C15","C20"], "kind_free_text": "bounded-exhaustive input enumeration against reference definitions"},
-  {"name": "SCHED", "path": "vrt, vsync, vatomic, vtime, cmd/vinstr, lib/schk, lib/lin", "serves_properties": ["C04","C05","C09","C10","C17","C18","C19"], "kind_free_text": "controlled scheduler + DFS over schedules of the instrumented real code (overlay rewrite), preemption/delay bounding, happens-before state cache, porcupine, race detector inside every schedule"},
+  {"name": "SCHED", "path": "vrt, vsync, vatomic, vtime, vcontext, vrand, cmd/vinstr, lib/schk, lib/lin", "serves_properties": ["C04","C05","C09","C10","C17","C18","C19"], "kind_free_text": "controlled scheduler + DFS over schedules of the instrumented real code (overlay rewrite), preemption/delay bounding, happens-before state cache, porcupine, race detector inside every schedule"},
  ],
  "checks": checks,
  "not_applicable": [],
